@@ -1,7 +1,7 @@
 (* C04 — what happens to the client connection after the tunnel (depends on
    the facts harness/cmd/gen_c04 reads from proxy.go into Gen_Ret.v). *)
-From Coq Require Import List NArith Bool Arith.
-From Martian.C04 Require Import Model.
+From Coq Require Import List NArith Bool Arith Lia.
+From Martian.C04 Require Import Gen_Ret Model.
 Import ListNotations.
 
 (* ------------------------------------------------------------------ *)
@@ -25,3 +25,25 @@ Proof. unfold probe_ok. destruct w, q; simpl; split; intro H; try discriminate; 
 (* a tunnel whose handler does not return a closing result is refuted by the probe's spec *)
 Lemma after_tunnel_nil_refuted : after_tunnel false true true true = mkAfter false true.
 Proof. reflexivity. Qed.
+
+(* every 2xx answer of the downstream proxy announces the tunnel *)
+Lemma is_2xx_range st : (200 <= st < 300)%N -> is_2xx st = true.
+Proof.
+  intro H. unfold is_2xx. apply N.eqb_eq. symmetry.
+  apply (N.div_unique st 100 2 (st - 200)); lia.
+Qed.
+
+Lemma downstream_2xx_is_tunnel st : (200 <= st < 300)%N -> connect_downstream st = mkDown st true.
+Proof.
+  intro H. unfold connect_downstream, downstream_is_tunnel.
+  change downstream_any_2xx with true. cbv iota. rewrite (is_2xx_range st H). reflexivity.
+Qed.
+
+Lemma only_200_refuted : downstream_is_tunnel false 201 = false.
+Proof. reflexivity. Qed.
+
+Lemma down_ok_iff a b c d p e :
+  down_ok a b c d p e = true <-> a = b /\ c = d /\ p = true /\ e = true.
+Proof.
+  unfold down_ok. rewrite !andb_true_iff, !N.eqb_eq. tauto.
+Qed.
